@@ -102,6 +102,9 @@ func streamDeliver(pol string, ms [][]byte, tail []byte, limit int, segs [][]byt
 		return in
 	}
 	good := false
+	if !decoderSafe("tcp", pol, ms...) {
+		return "", false
+	}
 	if Protect(func() string { good = serveLoopChunks(srv, segs, rec); return "" }) == "panic" {
 		Viol("C14/Serve/panic", "server panicked ("+what+")", mkIn(nil))
 		return "", false
